@@ -138,6 +138,40 @@ theorem runWith_eq {g : VGraph} (hclosed : g.Closed) (fuelOf : St → Nat)
       exact ih _ (fun v hv => hl v (List.mem_cons_of_mem _ hv)) (top_step hclosed inv hu).1
   exact key g.verts {} (fun _ h => h) (inv_init g)
 
+/-! ## Calling `components()` again on the same value -/
+
+/-- Once every vertex of `l` is indexed the top-level loop over `l` does nothing. -/
+theorem fold_top_idle {g : VGraph} {s : St} (inv : Inv g [] s) :
+    ∀ (l : List Nat), (∀ v ∈ l, s.indexed v) → l.foldl (top g) s = s := by
+  intro l
+  induction l with
+  | nil => intro _; rfl
+  | cons u l ih =>
+    intro h
+    have hu := h u List.mem_cons_self
+    have hstep : top g s u = s := by
+      unfold top
+      have hfl : s.fault.isSome = false := by simp [inv.nofault]
+      simp only [hfl, Bool.false_eq_true, if_false]
+      cases hidx : mget s.index u with
+      | some k => simp
+      | none => exact absurd hidx hu
+    simp only [List.foldl_cons, hstep]
+    exact ih (fun v hv => h v (List.mem_cons_of_mem _ hv))
+
+theorem resOf_run (g : VGraph) : resOf (run g) = components g := rfl
+
+/-- Every call after the first leaves the state of the first call untouched. -/
+theorem callN_succ {g : VGraph} (hclosed : g.Closed) : ∀ k, callN g (k + 1) = run g := by
+  intro k
+  induction k with
+  | zero => rfl
+  | succ k ih =>
+    obtain ⟨inv, hall⟩ := run_inv hclosed
+    show g.verts.foldl (top g) (callN g (k + 1)) = run g
+    rw [ih]
+    exact fold_top_idle inv g.verts hall
+
 theorem Inv.stack_nil {g : VGraph} {s : St} (inv : Inv g [] s) : s.stack = [] := by
   apply List.eq_nil_iff_forall_not_mem.mpr
   intro y hy
